@@ -82,6 +82,7 @@ type Gen struct {
 	inClosure int
 	globals   []*Var
 	needIdx   bool
+	needIdent bool
 	needSort  bool
 	lbl       int
 	faultAt   int
@@ -91,6 +92,7 @@ type Gen struct {
 	newNeeded map[string]int
 	methods   []*fnInfo
 	// clause: the block being generated is directly a switch clause body
+	unkeyed      int
 	nextIsClause bool
 	clause       []bool
 }
@@ -355,12 +357,15 @@ func (g *Gen) lit(t *Type, d int) (string, bool) {
 	case KStruct:
 		var parts []string
 		keyed := g.coin(50, "keyed")
+		if g.unkeyed > 0 {
+			keyed = false
+		}
 		for _, f := range t.Fields {
 			e := g.expr(f.Type, d-1)
 			if keyed {
 				parts = append(parts, f.Name+": "+e)
 			} else {
-				parts = append(parts, e)
+				parts = append(parts, stripParens(e))
 			}
 		}
 		g.use("lit-struct")
@@ -432,7 +437,31 @@ func (g *Gen) lit(t *Type, d int) (string, bool) {
 // elemLit is an element of a composite literal: inner composite literals may
 // elide their type when the feature is on.
 func (g *Gen) elemLit(t *Type, d int) string {
-	return g.expr(t, d)
+	return stripParens(g.expr(t, d))
+}
+
+// stripParens removes one pair of parentheses enclosing the whole expression.
+// Known finding paren-star-elem: an unkeyed composite literal element of the
+// form (… *p …) is rejected by the interpreter.
+func stripParens(e string) string {
+	if len(e) < 2 || e[0] != '(' || e[len(e)-1] != ')' {
+		return e
+	}
+	depth := 0
+	for i := 0; i < len(e); i++ {
+		switch e[i] {
+		case '(':
+			depth++
+		case ')':
+			depth--
+			if depth == 0 && i != len(e)-1 {
+				return e
+			}
+		case '"', '\'':
+			return e // keep it simple: do not look into literals
+		}
+	}
+	return e[1 : len(e)-1]
 }
 
 func (g *Gen) addressable(v *Var) bool {
@@ -727,7 +756,13 @@ func (g *Gen) intExpr(t *Type, d int) (string, bool) {
 			r = fmt.Sprint(g.n(0, t.Bits+1, "shc"))
 		} else {
 			ut := g.U.Ints[5+g.n(0, 4, "shty")]
-			r = fmt.Sprintf("(%s & %d)", g.nonConst(ut, d-1), []int{7, 15, 31, 63, 127}[g.n(0, 4, "shmask")])
+			cd := d - 1
+			if !g.on("shift-count-deep-const") {
+				// known finding: an untyped constant nested three levels deep in
+				// a shift count takes the type of the shifted operand
+				cd = 0
+			}
+			r = fmt.Sprintf("(%s & %d)", g.nonConst(ut, cd), []int{7, 15, 31, 63, 127}[g.n(0, 4, "shmask")])
 		}
 		g.use("shift")
 		return fmt.Sprintf("(%s %s %s)", l, op, r), false
@@ -855,6 +890,11 @@ func (g *Gen) boolExpr(d int) (string, bool) {
 		}
 		ct := cands[g.n(0, len(cands)-1, "cmpc")]
 		g.use("compare-composite")
+		if !g.on("keyed-lit-compare-in-logic") {
+			// known finding: (x == T{f: v}) as operand of && / || panics
+			g.unkeyed++
+			defer func() { g.unkeyed-- }()
+		}
 		return fmt.Sprintf("(%s == %s)", g.nonConst(ct, 0), g.expr(ct, d-1)), false
 	}
 }
